@@ -11,11 +11,12 @@
                                         _check_value_class / _check_units, HedValidator.validate_units
      class_regex.json                 : class_words.numericClass (hand-written recogniser [scan_num])
    Numbers are exact rationals (Q): IEEE rounding of float() and of the two multiplications is NOT modelled.
-   Three independent repair switches (false = the code before the repair, kept as the record of the defect):
+   Three independent repair switches; true = the code as it is in /repo (all four fix: commits are in),
+   false = the behaviour before that commit, kept only as the record of the defect:
    [fixed] (fix: commits f83491d, d18c9c6; DESIGN section 8 findings 10, 11): conversion looks a unit NAME up
            case-folded, and "a^b" is read as a power;
-   [f4]    (C11-F4): a unit after the number only counts when the value part is a single word;
-   [f3]    (C11-F3): the number is the FIRST word and the unit text everything after it, so that a unit name
+   [f4]    (fix: commit 537f494, C11-F4): a unit after the number only counts when the value part is a single word;
+   [f3]    (fix: commit 0669633, C11-F3): the number is the FIRST word and the unit text everything after it, so that a unit name
            may contain blanks (degree Celsius); prefix-type units still split at the last blank. *)
 From Coq Require Import List NArith ZArith QArith Bool.
 From HV Require Import Base.Res Base.Str.
@@ -342,7 +343,7 @@ Definition tag_unit_classes (S : uschema) (T : utag) : list classdef :=
 
 (* the loop of HedTag._get_tag_units_portion: (number, unit_text) is the split tried for a unit AFTER the number,
    (units, value) = (number, unit text) the split tried for a prefix-type unit BEFORE the number.
-   [f4]: `and " " not in <number>` *)
+   [f4] (fix: 537f494): `and " " not in <number>` *)
 Fixpoint portion_loop (f4 : bool) (S : uschema) (cs : list classdef) (value units number unit_text : str)
   : option (str * str * unitdef) :=
   match cs with
@@ -362,7 +363,7 @@ Fixpoint portion_loop (f4 : bool) (S : uschema) (cs : list classdef) (value unit
   end.
 
 (* HedTag._get_tag_units_portion: None stands for (None, None, None).
-   [f3]: number, _, unit_text = extension_text.partition(" ")  (before the repair: the rpartition pair) *)
+   [f3] (fix: 0669633): number, _, unit_text = extension_text.partition(" ")  (before it: the rpartition pair) *)
 Definition get_tag_units_portion (f3 f4 : bool) (S : uschema) (cs : list classdef) (ext : str)
   : option (str * str * unitdef) :=
   let (value, units) := rpartition_space ext in
